@@ -1,10 +1,14 @@
 package main
 
 import (
+	"encoding/json"
 	"flag"
 	"fmt"
 	"os"
+	"os/exec"
+	"path/filepath"
 	"sort"
+	"strings"
 
 	"govc/core"
 )
@@ -22,6 +26,8 @@ func main() {
 		os.Exit(checkCmd(os.Args[2:]))
 	case "ssa":
 		ssaCmd(os.Args[2:])
+	case "replay":
+		os.Exit(replayCmd(os.Args[2:]))
 	default:
 		fmt.Fprintln(os.Stderr, "unknown command", os.Args[1])
 		os.Exit(2)
@@ -56,11 +62,15 @@ func unitCmd(args []string) {
 	timeout := fs.Int("timeout", 10000, "per-obligation timeout (ms)")
 	dump := fs.String("dump", "", "write the SMT query of the named obligation to stdout")
 	verbose := fs.Bool("v", false, "print discharged obligations too")
+	eval := fs.String("eval", "", "semicolon-separated contract expressions to evaluate in counterexamples (post-state)")
 	fs.Parse(args)
 	e, err := core.Load(*repo, *pkg)
 	if err != nil {
 		fmt.Fprintln(os.Stderr, err)
 		os.Exit(2)
+	}
+	if *eval != "" {
+		e.ExtraEval = strings.Split(*eval, ";")
 	}
 	keys := fs.Args()
 	if len(keys) == 0 {
@@ -92,7 +102,7 @@ func unitCmd(args []string) {
 						ks = append(ks, k)
 					}
 					sort.Strings(ks)
-					for _, in := range o.Inputs {
+					for _, in := range res.Inputs {
 						if v, has := o.Model[in.Term.S]; has {
 							fmt.Printf("           %s = %s\n", in.Name, v)
 						}
@@ -118,7 +128,208 @@ func unitCmd(args []string) {
 	}
 }
 
+func verifRoot() string {
+	if d := os.Getenv("VERIF_ROOT"); d != "" {
+		return d
+	}
+	return "/verif"
+}
+
+func loadProps() (map[string]*core.PropertyConfig, error) {
+	data, err := os.ReadFile(filepath.Join(verifRoot(), "props.json"))
+	if err != nil {
+		return nil, err
+	}
+	var list []*core.PropertyConfig
+	if err := json.Unmarshal(data, &list); err != nil {
+		return nil, err
+	}
+	m := map[string]*core.PropertyConfig{}
+	for _, p := range list {
+		m[p.ID] = p
+	}
+	return m, nil
+}
+
+// checkCmd: govc check <Cxx> [--tier quick|thorough]
 func checkCmd(args []string) int {
-	fmt.Fprintln(os.Stderr, "check: not implemented yet")
-	return 2
+	fs := flag.NewFlagSet("check", flag.ExitOnError)
+	repo := fs.String("repo", "/repo", "repository root")
+	tier := fs.String("tier", os.Getenv("VERIF_TIER"), "quick or thorough")
+	noReplay := fs.Bool("no-replay", false, "do not run replay drivers")
+	evdir := fs.String("evidence", filepath.Join(verifRoot(), "evidence"), "evidence directory")
+	if len(args) == 0 {
+		fmt.Fprintln(os.Stderr, "usage: govc check <property> [flags]")
+		return 2
+	}
+	id := args[0]
+	fs.Parse(args[1:])
+	if *tier == "" {
+		*tier = "quick"
+	}
+	var seed int64
+	fmt.Sscan(os.Getenv("VERIF_SEED"), &seed)
+	props, err := loadProps()
+	if err != nil {
+		fmt.Fprintln(os.Stderr, "props.json:", err)
+		return 2
+	}
+	cfg := props[id]
+	if cfg == nil {
+		fmt.Fprintln(os.Stderr, "unknown property", id)
+		return 2
+	}
+	kf, err := core.LoadKnownFindings(filepath.Join(verifRoot(), "known_findings.json"))
+	if err != nil {
+		fmt.Fprintln(os.Stderr, "known_findings.json:", err)
+		return 2
+	}
+	timeout, cross := 10000, false
+	if *tier == "thorough" {
+		timeout, cross = 60000, true
+	}
+	cr, err := core.RunProperty(*repo, cfg, kf, timeout, 8, cross)
+	if err != nil {
+		// the tree does not load (does not compile with the tag): nothing can be decided
+		fmt.Fprintln(os.Stderr, "govc:", err)
+		fmt.Printf("VIOLATION property=%s replay=%s no-failing-input-found\n", id, writeLoadFailure(id, err))
+		return 1
+	}
+	// vacuity: the expected number of units / obligations must be present
+	if len(cr.Units) < cfg.MinUnits || cr.Obligations < cfg.MinObls {
+		cr.Violations = append(cr.Violations, &core.Violation{Property: id, Unit: "(check)", Obligation: id + "#vacuity", Kind: "vacuity",
+			Clause: fmt.Sprintf("at least %d units and %d obligations are generated (got %d, %d)", cfg.MinUnits, cfg.MinObls, len(cr.Units), cr.Obligations), Status: "error"})
+		cr.Obligations++
+	}
+	for _, k := range cr.KnownHit {
+		fmt.Printf("KNOWN-FINDING: %s\n", k)
+	}
+	exit := 0
+	replayDir := filepath.Join(verifRoot(), "replays")
+	for _, v := range cr.Violations {
+		path, err := v.WriteReplay(replayDir)
+		if err != nil {
+			fmt.Fprintln(os.Stderr, err)
+		}
+		v.Replayed = "no-driver"
+		if !*noReplay && v.Status == "sat" {
+			runReplay(*repo, v)
+			v.WriteReplay(replayDir)
+		}
+		suffix := ""
+		if v.Replayed != "reproduced" {
+			suffix = " no-failing-input-found"
+		}
+		fmt.Printf("FAILED-OBLIGATION %s (%s) %s: %s\n", v.Obligation, v.Status, v.Pos, truncate(v.Clause, 160))
+		fmt.Printf("VIOLATION property=%s replay=%s%s\n", id, path, suffix)
+		exit = 1
+	}
+	level := cfg.Level
+	if level == "" {
+		level = "proof"
+	}
+	if cr.Obligations == 0 || cr.Discharged == 0 {
+		level = "other"
+	}
+	cmd := fmt.Sprintf("/verif/bin/check %s (govc check %s --tier %s)", id, id, *tier)
+	extra := map[string]any{"replay_outcomes": replayOutcomes(cr)}
+	if err := cr.WriteEvidence(*evdir, cfg, *tier, seed, cmd, level, extra); err != nil {
+		fmt.Fprintln(os.Stderr, "evidence:", err)
+		return 2
+	}
+	fmt.Printf("%s: %d units, %d obligations, %d discharged, %d known findings, %d violations, %.1fs\n", id, len(cr.Units), cr.Obligations, cr.Discharged, len(cr.KnownHit), len(cr.Violations), cr.WallS)
+	return exit
+}
+
+func truncate(s string, n int) string {
+	if len(s) > n {
+		return s[:n] + "..."
+	}
+	return s
+}
+
+func replayOutcomes(cr *core.CheckResult) []string {
+	var out []string
+	for _, v := range cr.Violations {
+		out = append(out, v.Obligation+": "+v.Replayed)
+	}
+	return out
+}
+
+func writeLoadFailure(id string, err error) string {
+	dir := filepath.Join(verifRoot(), "replays")
+	os.MkdirAll(dir, 0o755)
+	path := filepath.Join(dir, id+"-load-failure.json")
+	data, _ := json.MarshalIndent(map[string]string{"property": id, "obligation": id + "#load", "error": err.Error()}, "", " ")
+	os.WriteFile(path, data, 0o644)
+	return path
+}
+
+// runReplay injects the property's replay driver into the package with -overlay
+// and runs it on the counterexample.
+func runReplay(repo string, v *core.Violation) {
+	drvDir := filepath.Join(verifRoot(), "replay", strings.ReplaceAll(strings.Trim(v.Pkg, "./"), "/", "_"))
+	if v.Pkg == "." || v.Pkg == "" {
+		drvDir = filepath.Join(verifRoot(), "replay", "root")
+	}
+	files, _ := filepath.Glob(filepath.Join(drvDir, "*_test.go"))
+	if len(files) == 0 {
+		return
+	}
+	tmp, err := os.MkdirTemp("", "govc-replay-")
+	if err != nil {
+		return
+	}
+	defer os.RemoveAll(tmp)
+	ov := map[string]map[string]string{"Replace": {}}
+	for _, f := range files {
+		ov["Replace"][filepath.Join(repo, v.Pkg, "zz_verif_"+filepath.Base(f))] = f
+	}
+	data, _ := json.Marshal(ov)
+	ovPath := filepath.Join(tmp, "overlay.json")
+	os.WriteFile(ovPath, data, 0o644)
+	cmd := exec.Command("go", "test", "-overlay", ovPath, "-tags", "verif", "-vet=off", "-count=1", "-v", "-timeout", "120s", "-run", "^TestVerifReplay$", ".")
+	cmd.Dir = filepath.Join(repo, v.Pkg)
+	cmd.Env = append(os.Environ(), "GOFLAGS=-mod=mod", "GOPROXY=off", "VERIF_REPLAY_FILE="+v.File)
+	out, _ := cmd.CombinedOutput()
+	v.ReplayCmd = fmt.Sprintf("cd %s && VERIF_REPLAY_FILE=%s go test -overlay <overlay of %s> -tags verif -vet=off -count=1 -timeout 120s -run '^TestVerifReplay$' .", cmd.Dir, v.File, drvDir)
+	v.ReplayLog = truncate(string(out), 3000)
+	switch {
+	case strings.Contains(string(out), "REPLAY: reproduced"):
+		v.Replayed = "reproduced"
+	case strings.Contains(string(out), "REPLAY: not-reproduced"):
+		v.Replayed = "not-reproduced"
+	default:
+		v.Replayed = "no-driver"
+	}
+}
+
+// replayCmd: govc replay <file> — re-runs the replay driver on a stored counterexample.
+func replayCmd(args []string) int {
+	fs := flag.NewFlagSet("replay", flag.ExitOnError)
+	repo := fs.String("repo", "/repo", "repository root")
+	fs.Parse(args)
+	if fs.NArg() != 1 {
+		fmt.Fprintln(os.Stderr, "usage: govc replay [--repo dir] <replay file>")
+		return 2
+	}
+	data, err := os.ReadFile(fs.Arg(0))
+	if err != nil {
+		fmt.Fprintln(os.Stderr, err)
+		return 2
+	}
+	var v core.Violation
+	if err := json.Unmarshal(data, &v); err != nil {
+		fmt.Fprintln(os.Stderr, err)
+		return 2
+	}
+	v.File = fs.Arg(0)
+	v.Replayed = "no-driver"
+	runReplay(*repo, &v)
+	fmt.Println(v.ReplayLog)
+	fmt.Printf("obligation %s: %s\n", v.Obligation, v.Replayed)
+	if v.Replayed == "reproduced" {
+		return 1
+	}
+	return 0
 }
